@@ -289,6 +289,8 @@ class C09(Prop):
             return check_dro(case)
         if case.get('kind') == 'expfam':
             return check_expfam(case)
+        if case.get('kind') == 'reuse':
+            return check_reuse(case)
         finish_late_rows(case)
         base, sched = case['base'], case['sched']
         labels = ['phases:%d' % sched['nphase'], 'obj:' + base['obj']['kind'], 'set_objects:' + sched['set_objects']]
@@ -356,13 +358,73 @@ def expfam_history(draw):
 
 
 @st.composite
+def reuse_history(draw):
+    """one expression object used inside E(maxof(...)) / E(minof(...)), inside a set-free robust constraint and inside a plain
+    expectation constraint, in a drawn order"""
+    n = draw(st.integers(1, 2))
+    nz = draw(st.integers(1, 2))
+    return {'kind': 'reuse', 'n': n, 'nz': nz, 'a': [draw(st.sampled_from([1.0, 2.0, -1.0])) for _ in range(n)],
+            'c': [draw(st.sampled_from([1.0, -1.0, 2.0, 0.5])) for _ in range(nz)], 'c0': draw(st.sampled_from([0.0, 1.0, -1.0])),
+            'mean': [draw(st.sampled_from([0.25, 0.5, 0.75])) for _ in range(nz)], 'r': draw(st.sampled_from([0.25, 0.5, 1.0])),
+            'order': draw(st.permutations(['obj', 'robust', 'expect'])), 'other_piece': draw(st.sampled_from([0.0, 1.0, -0.5])),
+            'sense': draw(st.sampled_from(['minsup', 'maxinf']))}
+
+
+@st.composite
 def c09_or_dro(draw):
-    k = draw(st.integers(0, 7))
+    k = draw(st.integers(0, 8))
     if k <= 1:
         return draw(dro_history())
     if k == 2:
         return draw(expfam_history())
+    if k == 3:
+        return draw(reuse_history())
     return draw(c09_case())
+
+
+def check_reuse(case):
+    import rsome as rso
+    from rsome import dro, E
+    labels = ['kind:reuse', 'order:' + '-'.join(case['order']), 'sense:' + case['sense']]
+    n, nz = case['n'], case['nz']
+    a, c = np.array(case['a']), np.array(case['c'])
+
+    def build(shared):
+        m = dro.Model()
+        x = m.dvar(n)
+        z = m.rvar(nz)
+        fs = m.ambiguity()
+        fs.suppset(z >= 0, z <= 1)
+        fs.exptset(E(z) == np.array(case['mean']))
+        one = a @ x + c @ z + case['c0']
+
+        def expr():
+            return one if shared else a @ x + c @ z + case['c0']
+        lo = case['sense'] == 'minsup'
+        for what in case['order']:
+            if what == 'obj':
+                if lo:
+                    m.minsup(E(rso.maxof(expr(), case['other_piece'])) + x.sum(), fs)
+                else:
+                    m.maxinf(E(rso.minof(expr(), case['other_piece'])) - x.sum(), fs)
+            elif what == 'robust':
+                m.st(expr() >= case['r']) if lo else m.st(expr() <= -case['r'])
+            else:
+                m.st(E(expr()) >= case['r'] + 0.25) if lo else m.st(E(expr()) <= -case['r'] - 0.25)
+        m.st(x >= -4, x <= 4)
+        with quiet():
+            m.solve(display=False)
+        sol = m.solution
+        return m.get() if sol is not None and sol.x is not None and not np.isnan(sol.objval) else None
+    v1, v2 = build(True), build(False)
+    if v1 is None or v2 is None:
+        if (v1 is None) != (v2 is None):
+            return Outcome.fail('reuse:status', 'shared expression object: %r, fresh expressions: %r' % (v1, v2), labels)
+        return Outcome.skip('not_optimal', labels)
+    if abs(v1 - v2) > 1e-6 * (1 + abs(v2)):
+        return Outcome.fail('reuse:value', 'one expression object used in E(piecewise), a robust and an expectation constraint gives %.9g; '
+                                           'the same model with fresh expressions gives %.9g' % (v1, v2), labels)
+    return Outcome.ok(True, labels)
 
 
 def check_expfam(case):
